@@ -35,6 +35,7 @@ enum {
 	L_UNREG_TIMER_PENDING, L_LEVEL_REPEAT, L_M0, L_M1, L_M2, L_M3, L_FREE_IN_HANDLER, L_EV_FAIL,
 	L_RAW_IN_HANDLER_POST, L_FAR_TIMER, L_TFD_FALLBACK, L_PPOLL_FALLBACK,
 	L_RAW_BIG_BURST, L_RAW_SIGNAL_POST, L_RAW_CHILD_POST, L_RAW_PIPE, L_RAW_OLD_EVENTFD, L_RAW_1024_MULTIPLE,
+	L_FAULT_HIT, L_METHOD_SWITCHED,
 };
 
 /* ------------------------------------------------------------------ configuration */
@@ -57,6 +58,20 @@ static int cfg_eventfd_mode;   /* 0 eventfd2, 1 old eventfd (eventfd2 -> EINVAL)
 static int known_handlerless_excluded, known_evfail_excluded;
 static long forced_eintr_prim = -1, forced_eintr_k = -1;
 static int forced_fault_sys = -1, forced_fault_errno, forced_fault_from = 0, forced_fault_count = 1 << 30;
+static struct { int sys, err; long from, count; } faults[6]; static int nfaults;   /* param faults=sys:errno:from:count,... */
+static long eintr_at = -1, loop_waits_seen;   /* param eintr_at=k: the k-th wait call of the loop (any primitive) is interrupted */
+static int expect_fatal, forced_eintr_now;
+/* confluent mode (C15 differential): every callback acts only on its own object, driven by a choice block derived from
+ * (case, object, invocation number), so that the per-object outcome does not depend on the dispatch order */
+static int confluent; static uint64_t conf_seed; static unsigned conf_inv[NKIND][MAXTIMER]; static int conf_budget[NKIND][MAXTIMER]; static unsigned conf_block_no;
+static long summary_cnt[NKIND][MAXTIMER][3];
+static uint8_t conf_block[48];
+static void conf_seat(unsigned a, unsigned b, unsigned c)
+{
+	struct vz_rng r; rng_seed(&r, conf_seed ^ ((uint64_t)a << 40) ^ ((uint64_t)b << 20), c);
+	for (unsigned i = 0; i < sizeof conf_block; i++) conf_block[i] = (uint8_t)rng_next(&r);
+	ch_init(conf_block, sizeof conf_block);
+}
 
 /* ------------------------------------------------------------------ shadow model */
 struct cell { int kind, id; unsigned gen; int live; int superseded; };
@@ -139,6 +154,7 @@ static void fail_any(const char *tag, const char *fmt, ...)
 
 static void fatal_handler(const char *msg)
 {
+	if (expect_fatal && strstr(msg, "suitable event dispatcher")) { vz_log("iv_fatal as expected: %s", msg); vz_nontrivial(); vz_finish(); }
 	char tag[64] = "fatal."; int n = 6;
 	for (const char *p = msg; *p && *p != ':' && n < 60; p++) tag[n++] = (*p == ' ') ? '_' : *p;
 	tag[n] = 0;
@@ -336,7 +352,7 @@ static void fd_cb(void *cookie, int band, int variant)
 	else if (!f->gt[band]) FAILP("C03", "not-ready-at-poll", "fd%d band%d called, but the condition did not hold at the preceding poll", c->id, band);
 	if (f->called_iter[band] == iter) FAILP("C03", "twice-per-iteration", "fd%d band%d called twice in iteration %lu", c->id, band, iter);
 	if (f->called_iter[band] + 1 == iter && f->ncalls[band]) vz_label(L_LEVEL_REPEAT);
-	f->called_iter[band] = iter; f->streak[band] = 0; f->ncalls[band]++;
+	f->called_iter[band] = iter; f->streak[band] = 0; f->ncalls[band]++; summary_cnt[KIND_FD][c->id][band]++;
 	if (blocked_env_event) vz_label(L_AROSE_BLOCKED);
 	if (budget <= 0) unregister_everything();
 	else run_actions(KIND_FD, c->id, 3);
@@ -415,7 +431,7 @@ static void timer_cb(void *cookie)
 	for (int j = 0; j < cfg_ntimer; j++)
 		if (j != c->id && tmos[j].registered && tmos[j].expires < t->expires && tmos[j].reg_iter < iter)
 			FAILP("C05", "order", "timer%d (expires %lld) ran before timer%d (expires %lld)", c->id, (long long)t->expires, j, (long long)tmos[j].expires);
-	t->registered = 0; c->live = 0;
+	t->registered = 0; c->live = 0; summary_cnt[KIND_TIMER][c->id][0]++;
 	/* one-shot: the handler may free or re-register its own struct right here */
 	if (!cfg_alloc_reuse && ch_n(2)) { vz_label(L_FREE_IN_HANDLER); memset(t->iv, 0x5A, sizeof *t->iv); free(t->iv); t->iv = NULL; }
 	in_timer_dispatch = 1;
@@ -480,7 +496,7 @@ static void task_cb(void *cookie)
 	if (t->ran_ever && t->last_run_poll == poll_calls)
 		FAILP("C06", "rerun-same-round", "task%d ran twice without a kernel poll in between (after wait call #%lu)", c->id, poll_calls);
 	t->ran_ever = 1; t->last_run_poll = poll_calls;
-	t->registered = 0; c->live = 0;
+	t->registered = 0; c->live = 0; summary_cnt[KIND_TASK][c->id][0]++;
 	if (!cfg_alloc_reuse && ch_n(2)) { vz_label(L_FREE_IN_HANDLER); memset(t->iv, 0x5A, sizeof *t->iv); free(t->iv); t->iv = NULL; }
 	if (budget <= 0) unregister_everything();
 	else run_actions(KIND_TASK, c->id, 3);
@@ -537,7 +553,7 @@ static void event_cb(void *cookie)
 		FAILP("C01", "callback-after-unregister", "event%d handler ran after iv_event_unregister returned", c->id);
 		fail_any("event-callback-not-registered", "event%d handler ran although not registered", c->id);
 	}
-	e->ncalls++;
+	e->ncalls++; summary_cnt[KIND_EVENT][c->id][0]++;
 	if (e->ncalls > e->nposts) FAILP("C08", "over-delivered", "event%d handler ran %ld times for %ld posts", c->id, e->ncalls, e->nposts);
 	e->posts_outstanding = 0;
 	if (budget <= 0) unregister_everything();
@@ -611,7 +627,7 @@ static void raw_cb(void *cookie)
 		FAILP("C01", "callback-after-unregister", "raw event %d handler ran after unregister returned", c->id);
 		fail_any("raw-callback-not-registered", "raw%d handler ran although not registered", c->id);
 	}
-	e->posts_outstanding = 0;
+	e->posts_outstanding = 0; summary_cnt[KIND_RAW][c->id][0]++;
 	if (budget <= 0) unregister_everything();
 	else run_actions(KIND_RAW, c->id, 3);
 	cb_leave();
@@ -724,8 +740,24 @@ static void do_action(int ctx_kind, int ctx_id)
 	}
 	(void)self;
 }
+static void run_actions_confluent(int kind, int id)
+{
+	conf_seat(kind, id, conf_inv[kind][id]++);
+	int left = --conf_budget[kind][id];
+	switch (kind) {
+	case KIND_FD:
+		if (left <= 0) { fd_do_unregister(id); return; }
+		switch (ch_n(4)) { case 0: break; case 1: chan_io(id, 3); break; case 2: { int b = ch_n(3); fd_do_set(id, b, ch_n(3)); } break; default: chan_io(id, 3); break; }
+		break;
+	case KIND_TIMER: if (left > 0 && ch_n(2)) timer_do_register(id); break;
+	case KIND_TASK: if (left > 0 && ch_n(2)) task_do_register(id); break;
+	case KIND_EVENT: if (left <= 0) event_do_unregister(id); else if (ch_n(2)) event_do_post(id); break;
+	case KIND_RAW: if (left <= 0) raw_do_unregister(id); else if (ch_n(2)) { rwos[id].posts_outstanding = 1; iv_event_raw_post(rwos[id].iv); } break;
+	}
+}
 static void run_actions(int ctx_kind, int ctx_id, int nmax)
 {
+	if (confluent && in_main) { run_actions_confluent(ctx_kind, ctx_id); return; }
 	int n = ch_n(nmax + 1);
 	for (int k = 0; k < n; k++) do_action(ctx_kind, ctx_id);
 }
@@ -740,6 +772,12 @@ static int64_t hook_clock_incr(void)
 static int hook_sysfault(int sys, unsigned long k)
 {
 	if (sys == forced_fault_sys && (long)k >= forced_fault_from && (long)k < forced_fault_from + forced_fault_count) return forced_fault_errno;
+	for (int i = 0; i < nfaults; i++)
+		if (faults[i].sys == sys && (long)k >= faults[i].from && (long)k < faults[i].from + faults[i].count) { vz_label(L_FAULT_HIT); return faults[i].err; }
+	if (eintr_at >= 0 && in_main && (sys == VKS_EPOLL_WAIT || sys == VKS_EPOLL_PWAIT2 || sys == VKS_POLL || sys == VKS_PPOLL)) {
+		/* k counts the calls of the wait primitives made from inside iv_main, fallback retries included */
+		if (loop_waits_seen++ == eintr_at) { vz_label(L_FAULT_HIT); vz_label(L_EINTR); forced_eintr_now = 1; return EINTR; }
+	}
 	if (sys == VKS_EPOLL_PWAIT2 && cfg_pwait2_err) { vz_label(L_PWAIT2_FALLBACK); return cfg_pwait2_err; }
 	if (sys == VKS_EVENTFD2 && ev_fail_armed) return EMFILE;
 	if (sys == VKS_EVENTFD2 && cfg_eventfd_mode >= 1) return cfg_eventfd_mode == 1 ? EINVAL : ENOSYS;
@@ -854,6 +892,7 @@ static int hook_wait_block(struct vk_wait *w)
 		}
 	}
 	/* --- environment decision --- */
+	if (confluent) conf_seat(99, 0, conf_block_no++);
 	unsigned c = ch_n(6);
 	if (c >= 1 && c <= 3 && cfg_nfd) {
 		int i = ch_n(cfg_nfd);
@@ -896,6 +935,8 @@ static void hook_quiescent(struct vk_wait *w)
 		fail_any("hang-with-timer", "loop blocks forever although timer%d is registered", which);
 	if (any_due(NULL, 0)) fail_any("hang-while-due", "loop blocks forever while a wanted descriptor is ready");
 	vz_label(L_ENDED_BLOCKED);
+	{ uint64_t h = 1469598103934665603ull; for (int k = 0; k < NKIND; k++) for (int i = 0; i < MAXTIMER; i++) for (int b = 0; b < 3; b++) { h ^= (uint64_t)summary_cnt[k][i][b] + 1; h *= 1099511628211ull; }
+	  vz_count(6, poll_calls); vz_count(7, (long)(h & 0x7fffffff)); if (vz_has_label(L_FAULT_HIT) && !strncmp(vz_prop, "C15", 3)) vz_nontrivial(); }
 	vz_log("case ends: loop legitimately blocked forever (%d objects registered, none can become due)", n_registered());
 	vz_finish();
 }
@@ -923,7 +964,8 @@ static void hook_wait_error(struct vk_wait *w, int err)
 	if (err == EINTR) {
 		if (last_wait_polled) end_of_dispatch_checks();
 		last_wait_polled = 0;   /* no kernel poll happened: not an iteration for the fd rules */
-		if (ch_n(2)) vk_advance((int64_t[]){ 1, 1000, 1000000, 50000000 }[ch_n(4)]);
+		if (forced_eintr_now) forced_eintr_now = 0;     /* enumerated fault: no draws, so that the rest of the program is unchanged */
+		else if (ch_n(2)) vk_advance((int64_t[]){ 1, 1000, 1000000, 50000000 }[ch_n(4)]);
 		last_wait_end = vk_now();   /* time may have passed in an interrupted wait: the clock has to be re-read (not so after ENOSYS/EPERM) */
 	}
 }
@@ -997,6 +1039,15 @@ void target_run(void)
 	forced_eintr_prim = vz_param_l("eintr_prim", -1); forced_eintr_k = vz_param_l("eintr_k", -1);
 	forced_fault_sys = vz_param_l("fault_sys", -1); forced_fault_errno = vz_param_l("fault_errno", ENOSYS);
 	forced_fault_from = vz_param_l("fault_from", 0); forced_fault_count = vz_param_l("fault_count", 1 << 30);
+	eintr_at = vz_param_l("eintr_at", -1); expect_fatal = vz_param_l("expect_fatal", 0);
+	confluent = vz_param_l("confluent", 0);
+	{ const char *fs = vz_param("faults", NULL);
+	  while (fs && *fs && nfaults < 6) {
+		long a, b, c2, d; int used = 0;
+		if (sscanf(fs, "%ld:%ld:%ld:%ld%n", &a, &b, &c2, &d, &used) < 4) break;
+		faults[nfaults].sys = a; faults[nfaults].err = b; faults[nfaults].from = c2; faults[nfaults].count = d; nfaults++;
+		fs += used; if (*fs == ',') fs++;
+	  } }
 	cfg_nfd = 1 + ch_n(big ? MAXFD : 5); cfg_ntimer = 1 + ch_n(big ? (profile == 2 ? MAXTIMER : 12) : 6); cfg_ntask = 1 + ch_n(big ? MAXTASK : 3);
 	cfg_nev = 1 + ch_n(big ? MAXEV : 2); cfg_nraw = 1 + ch_n(big ? MAXRAW : 2);
 	budget = 20 + ch_n(big ? 250 : 100);
@@ -1004,7 +1055,13 @@ void target_run(void)
 	vz_hash_u(cfg_method); vz_hash_u(cfg_alloc_reuse); vz_hash_u(cfg_pwait2_err);
 
 	setenv("IV_EXCLUDE_POLL_METHOD", excl[cfg_method], 1);
-	const char *ex = vz_param("exclude", NULL); if (ex) setenv("IV_EXCLUDE_POLL_METHOD", ex, 1);
+	const char *ex = vz_param("exclude", NULL);
+	if (ex) {      /* blanks arrive escaped (\x20, \x09) when the parameter travels through a list file */
+		char *u = malloc(strlen(ex) + 1), *o = u;
+		for (const char *q = ex; *q; ) { if (!strncmp(q, "\\x20", 4)) { *o++ = ' '; q += 4; } else if (!strncmp(q, "\\x09", 4)) { *o++ = '\t'; q += 4; } else *o++ = *q++; }
+		*o = 0; ex = u;
+		setenv("IV_EXCLUDE_POLL_METHOD", ex, 1);
+	}
 	vz_log("config: method=%s alloc=%s clock-incr=%d%% callback-cost=%lldns eintr=%d%% pwait2-errno=%d objects fd=%d timer=%d task=%d event=%d raw=%d budget=%ld",
 	       mname[cfg_method], cfg_alloc_reuse ? "reuse" : "malloc/free", cfg_clk_pct, (long long)cfg_cb_cost, cfg_eintr_pct, cfg_pwait2_err, cfg_nfd, cfg_ntimer, cfg_ntask, cfg_nev, cfg_nraw, budget);
 
@@ -1016,9 +1073,18 @@ void target_run(void)
 	vk_active = 1; { extern int vlock_active; vlock_active = 1; }
 	iv_set_fatal_msg_handler(fatal_handler);
 
+	if (confluent) {
+		budget = 1 << 30; cfg_eintr_pct = 0; cfg_clk_pct = 0;
+		conf_seed = 0x9E3779B97F4A7C15ull;
+		for (int k = 0; k < 16; k++) conf_seed = conf_seed * 31 + ch_byte();
+		for (int k = 0; k < NKIND; k++) for (int i = 0; i < MAXTIMER; i++) conf_budget[k][i] = 2 + (int)((conf_seed >> (k * 5 + i % 7)) & 7);
+	}
 	make_channels();
 	iv_init();
-	if (!ex && strcmp(iv_poll_method_name(), mname[cfg_method]) && forced_fault_sys < 0)
+	if (expect_fatal) FAILP("C15", "no-fatal-when-all-excluded", "every poll method is excluded but iv_init returned (method %s)", iv_poll_method_name());
+	{ const char *em = vz_param("expect_method", NULL);
+	  if (em && strcmp(iv_poll_method_name(), em)) FAILP("C15", "method-selection", "IV_EXCLUDE_POLL_METHOD='%s' (+ injected creation failures) selected %s, expected %s", getenv("IV_EXCLUDE_POLL_METHOD"), iv_poll_method_name(), em); }
+	if (!ex && !nfaults && strcmp(iv_poll_method_name(), mname[cfg_method]) && forced_fault_sys < 0)
 		FAILP("C15", "method-selection", "IV_EXCLUDE_POLL_METHOD='%s' selected %s, expected %s", excl[cfg_method], iv_poll_method_name(), mname[cfg_method]);
 
 	/* a "ticker": a descriptor that stays readable and whose handler (mostly) leaves it so, which wakes
@@ -1051,7 +1117,7 @@ void target_run(void)
 						 fail_any("early-return", "iv_main returned with %d objects registered and no iv_quit", nreg); }
 		for (int i = 0; i < cfg_ntimer; i++)   /* exactly-once: nothing registered may be left unfired unless quit */
 			if (tmos[i].registered && !quit_called) FAILP("C04", "never-fired", "timer%d never fired", i);
-		if (ch_n(3) != 1 || budget <= 0) break;
+		if (confluent || ch_n(3) != 1 || budget <= 0) break;
 		vz_label(L_SECOND_ROUND);
 	}
 	/* wind down */
@@ -1067,11 +1133,14 @@ void target_run(void)
 	else if (!strncmp(p, "C03", 3)) nt = vz_has_label(L_READY_THEN_NOT) || vz_has_label(L_REUSE_READY);
 	else if (!strncmp(p, "C04", 3)) nt = vz_has_label(L_TFD_REARM) || vz_has_label(L_PAST_EXPIRY) || vz_has_label(L_REARM_HANDLER);
 	else if (!strncmp(p, "C06", 3)) nt = vz_has_label(L_TASK_REREG_BUSY) || vz_has_label(L_ZERO_DL_TFD);
+	else if (!strncmp(p, "C15", 3)) nt = vz_has_label(L_FAULT_HIT);
 	else if (!strncmp(p, "C09", 3)) nt = vz_has_label(L_RAW_IN_HANDLER_POST) || (vz_has_label(L_RAW_BIG_BURST) && vz_has_label(L_RAW_PIPE)) || vz_has_label(L_RAW_SIGNAL_POST) || vz_has_label(L_RAW_CHILD_POST);
 	else if (!strncmp(p, "C07", 3)) nt = vz_has_label(L_QUIT) || vz_has_label(L_FAILED_REG) || vz_has_label(L_ZERO_VIA_CB);
 	else nt = callbacks_total > 3;
 	if (nt) vz_nontrivial();
-	vz_count(4, callbacks_total); vz_count(5, iter);
+	vz_count(4, callbacks_total); vz_count(5, iter); vz_count(6, poll_calls);
+	{ uint64_t h = 1469598103934665603ull; for (int k = 0; k < NKIND; k++) for (int i = 0; i < MAXTIMER; i++) for (int b = 0; b < 3; b++) { h ^= (uint64_t)summary_cnt[k][i][b] + 1; h *= 1099511628211ull; }
+	  vz_count(7, (long)(h & 0x7fffffff)); }
 }
 
 size_t target_gen(uint64_t seed, uint64_t index, uint8_t *buf, size_t cap)
